@@ -494,6 +494,22 @@ def run_C06(ck):
             add('bitflip', bytes(m), f, f['check'] in (1, 4))
         for cut in range(len(b)) if len(b) < 200 or ck.tier != 'quick' else sorted(set(rng.below(len(b)) for _ in range(60)) | set(range(max(0, len(b) - 14), len(b)))):
             add('truncate', b[:cut], f, False)
+    # chained LZMA2 filters (accepted by lzma-rs): corruption of the INNER stream is seen only by the later filter
+    def lzma2_raw_wrap(b):
+        out, first = b'', True
+        for i in range(0, len(b), 65536):
+            piece = b[i:i + 65536]
+            out += bytes([1 if first else 2]) + struct.pack('>H', len(piece) - 1) + piece; first = False
+        return out + b'\x00'
+    for k in range(15 if ck.tier == 'quick' else 100):
+        s_ = rng.choice(pool)
+        inner = s_['bytes']
+        kind = rng.below(3)
+        bad = corrupt(rng, inner) if kind == 0 else inner[:rng.range(0, len(inner) - 1)] if kind == 1 else inner + bytes([rng.range(1, 255)])
+        chk = rng.choice([1, 4])
+        blk = XzBlock(lzma2_raw_wrap(bad), s_['out'], nfilters=2)
+        f = {'out': s_['out'], 'desc': {'chained': True}, 'check': chk}
+        add('chained inner %s' % ['corrupt', 'truncated', 'trailing'][kind], xz_file([blk], chk), f, False)
     # exhaustive bit flips of the two CRC-carrying sample files
     for name in ['block-check-crc32.txt.xz', 'hello.txt.xz'] if ck.tier == 'quick' else [n for n in sorted(os.listdir('/repo/tests/files')) if n.endswith('.xz') and os.path.getsize('/repo/tests/files/' + n) < 3000]:
         raw = open('/repo/tests/files/' + name, 'rb').read()
@@ -1229,6 +1245,14 @@ def run_C12(ck):
         for wr, wf in [('all', 'none'), ('1', 'none'), ('3', '0'), ('1', str(rng.below(max(1, s['n']))))]:
             lens = chunkings(rng, len(b), 'random')
             cases.append({'line': 'stream opt=rfh calls=%s wr=%s wfail=%s' % (stream_calls(b, lens), wr, wf), 'meta': {'op': 'stream', 'fault': 'write' if wf != 'none' else 'none', 'k': wf}, 'stream': True, 'good': s['out'], 'inside': None, 'op': 'stream'})
+        # a sink whose flush fails, with explicit flush calls between the writes
+        lens = chunkings(rng, len(b), 'random')
+        calls = []
+        for p_ in pieces(b, lens):
+            calls.append('W:%s' % hx(p_))
+            if rng.chance(1, 2): calls.append('f')
+        calls += ['f', 'x']
+        cases.append({'line': 'stream opt=rfh calls=%s wr=%s ffail=1' % (';'.join(calls), rng.choice(['all', '2'])), 'meta': {'op': 'stream', 'fault': 'flush'}, 'stream': True, 'good': s['out'], 'inside': None, 'op': 'stream', 'flushfail': True})
     run_both(ck, cases)
     for c in cases:
         ck.note_case(c['line'], bool(c['inside']))
